@@ -200,10 +200,19 @@ theorem not_proc_of_queued {x : Xfer} (h : x.st = .queued) : x.procUpload = fals
 
 /-! ### invariant -/
 
+theorem not_held_of_queued {x : Xfer} (h : x.st = .queued) (hi : x.inflight = false) : x.held = false := by
+  simp [Xfer.held, not_proc_of_queued h, hi]
+
+theorem held_of_proc {x : Xfer} (h : x.procUpload = true) : x.held = true := by
+  simp [Xfer.held, h]
+
 structure InvL (xs : List Xfer) : Prop where
   ids : xs.Pairwise (fun a b => a.id < b.id)
   bound : ∀ x ∈ xs, x.id < xs.length
-  one : xs.Pairwise (fun a b => a.procUpload = true → b.procUpload = true → a.user ≠ b.user)
+  /-- no user holds two slots (active uploads and chosen ones alike) -/
+  one : xs.Pairwise (fun a b => a.held = true → b.held = true → a.user ≠ b.user)
+  /-- only a QUEUED upload is between decision and record -/
+  infl : ∀ x ∈ xs, x.inflight = true → x.dir = .upload ∧ x.st = .queued
 
 def Inv (s : Sched) : Prop := InvL s.xs
 
@@ -211,10 +220,11 @@ theorem InvL.nodup {xs : List Xfer} (h : InvL xs) : xs.Nodup := by
   rw [nodup_iff_pairwise_ne]
   exact h.ids.imp (fun hab e => by rw [e] at hab; exact Nat.lt_irrefl _ hab)
 
-/-- an update that keeps id and user and never makes an upload active preserves the invariant -/
+/-- an update that keeps id and user and never makes an upload hold a slot preserves the invariant -/
 theorem InvL.map {xs : List Xfer} (h : InvL xs) (g : Xfer → Xfer) (hid : ∀ x, (g x).id = x.id)
-    (hu : ∀ x, (g x).user = x.user) (hp : ∀ x, (g x).procUpload = true → x.procUpload = true) : InvL (xs.map g) := by
-  refine ⟨?_, ?_, ?_⟩
+    (hu : ∀ x, (g x).user = x.user) (hp : ∀ x, (g x).held = true → x.held = true)
+    (hq : ∀ x ∈ xs, (g x).inflight = true → (g x).dir = .upload ∧ (g x).st = .queued) : InvL (xs.map g) := by
+  refine ⟨?_, ?_, ?_, ?_⟩
   · rw [pairwise_map]
     exact h.ids.imp (fun hab => by rw [hid, hid]; exact hab)
   · intro y hy
@@ -223,10 +233,13 @@ theorem InvL.map {xs : List Xfer} (h : InvL xs) (g : Xfer → Xfer) (hid : ∀ x
     exact h.bound x hx
   · rw [pairwise_map]
     exact h.one.imp (fun hab ha hb => by rw [hu, hu]; exact hab (hp _ ha) (hp _ hb))
+  · intro y hy
+    obtain ⟨x, hx, rfl⟩ := mem_map.mp hy
+    exact hq x hx
 
 theorem InvL.append_idle {xs : List Xfer} (h : InvL xs) (x : Xfer) (hid : x.id = xs.length)
-    (hp : x.procUpload = false) : InvL (xs ++ [x]) := by
-  refine ⟨?_, ?_, ?_⟩
+    (hp : x.held = false) : InvL (xs ++ [x]) := by
+  refine ⟨?_, ?_, ?_, ?_⟩
   · rw [pairwise_append]
     refine ⟨h.ids, by simp, ?_⟩
     intro a ha b hb
@@ -249,62 +262,119 @@ theorem InvL.append_idle {xs : List Xfer} (h : InvL xs) (x : Xfer) (hid : x.id =
     intro _ hb
     rw [hp] at hb
     cases hb
+  · intro y hy hi
+    rcases mem_append.mp hy with hy | hy
+    · exact h.infl y hy hi
+    · simp only [mem_singleton] at hy
+      subst hy
+      have : y.inflight = false := by
+        cases hyi : y.inflight
+        · rfl
+        · simp [Xfer.held, hyi] at hp
+      rw [this] at hi
+      cases hi
 
-/-- the update a cycle applies -/
-def cycleMap (sel : List Xfer) (x : Xfer) : Xfer := if x ∈ sel then { x with st := .initializing } else x
-
-theorem start_xs (s : Sched) : s.start.xs = s.xs.map (cycleMap s.select) := rfl
+theorem start_xs (s : Sched) : s.start.xs = s.xs.map (markSel s.select) := rfl
 
 /-- the tracking half of a cycle touches neither the transfers nor the slot setting -/
 theorem track_xs (s : Sched) : s.track.xs = s.xs := rfl
 
 theorem cycle_eq (s : Sched) : s.cycle = s.track.start := rfl
 
-theorem cycleMap_proc {s : Sched} {x : Xfer} (_hx : x ∈ s.xs) :
-    (cycleMap s.select x).procUpload = (x.procUpload || decide (x ∈ s.select)) := by
-  unfold cycleMap
-  by_cases h : x ∈ s.select
-  · have hs := select_spec h
-    simp [h, Xfer.procUpload, Xfer.processing, hs.2.1]
+theorem noInflight_spec {s : Sched} (h : s.noInflight = true) {x : Xfer} (hx : x ∈ s.xs) : x.inflight = false := by
+  unfold Sched.noInflight at h
+  rw [all_eq_true] at h
+  simpa using h x hx
+
+theorem markSel_user (sel : List Xfer) (x : Xfer) : (markSel sel x).user = x.user := by
+  unfold markSel; split <;> (try split) <;> rfl
+theorem markSel_id (sel : List Xfer) (x : Xfer) : (markSel sel x).id = x.id := by
+  unfold markSel; split <;> (try split) <;> rfl
+theorem markSel_dir (sel : List Xfer) (x : Xfer) : (markSel sel x).dir = x.dir := by
+  unfold markSel; split <;> (try split) <;> rfl
+theorem markSel_st (sel : List Xfer) (x : Xfer) : (markSel sel x).st = x.st := by
+  unfold markSel; split <;> (try split) <;> rfl
+theorem markSel_proc (sel : List Xfer) (x : Xfer) : (markSel sel x).procUpload = x.procUpload := by
+  unfold markSel; split <;> (try split) <;> rfl
+
+/-- the selected uploads that get a task: those without a lingering one -/
+def taskSel (sel : List Xfer) : List Xfer := sel.filter (fun x => !x.lingering)
+
+theorem mem_taskSel {sel : List Xfer} {x : Xfer} : x ∈ taskSel sel ↔ x ∈ sel ∧ x.lingering = false := by
+  unfold taskSel
+  simp [mem_filter]
+
+theorem markSel_inflight (sel : List Xfer) (x : Xfer) :
+    (markSel sel x).inflight = (x.inflight || decide (x ∈ taskSel sel)) := by
+  unfold markSel
+  by_cases h : x ∈ sel
+  · by_cases hl : x.lingering = true
+    · simp [h, hl, mem_taskSel]
+    · simp [h, hl, mem_taskSel]
+  · simp [h, mem_taskSel]
+
+theorem markSel_held (sel : List Xfer) (x : Xfer) :
+    (markSel sel x).held = (x.held || decide (x ∈ taskSel sel)) := by
+  unfold Xfer.held
+  rw [markSel_proc, markSel_inflight, Bool.or_assoc]
+
+theorem markSel_watched (sel : List Xfer) (x : Xfer) :
+    (markSel sel x).watched = (x.watched || (decide (x ∈ sel) && x.lingering)) := by
+  unfold markSel
+  by_cases h : x ∈ sel
+  · by_cases hl : x.lingering = true
+    · simp [h, hl]
+    · simp [h, hl]
   · simp [h]
 
-theorem inv_start {s : Sched} (h : Inv s) : Inv s.start := by
+/-- a timely cycle (nothing between decision and record) keeps the invariant -/
+theorem inv_start {s : Sched} (h : Inv s) (hn : s.noInflight = true) : Inv s.start := by
   unfold Inv at h ⊢
   rw [start_xs]
-  refine ⟨?_, ?_, ?_⟩
+  refine ⟨?_, ?_, ?_, ?_⟩
   · rw [pairwise_map]
-    exact h.ids.imp (fun hab => by
-      unfold cycleMap
-      split <;> split <;> exact hab)
+    exact h.ids.imp (fun hab => by rw [markSel_id, markSel_id]; exact hab)
   · intro y hy
     obtain ⟨x, hx, rfl⟩ := mem_map.mp hy
-    rw [length_map]
-    have := h.bound x hx
-    unfold cycleMap
-    split <;> exact this
+    rw [length_map, markSel_id]
+    exact h.bound x hx
   · rw [pairwise_map]
     refine (h.ids.and h.one).imp_of_mem ?_
     intro a b ha hb hab pa pb
-    have ua : (cycleMap s.select a).user = a.user := by unfold cycleMap; split <;> rfl
-    have ub : (cycleMap s.select b).user = b.user := by unfold cycleMap; split <;> rfl
-    rw [ua, ub]
-    rw [cycleMap_proc ha] at pa
-    rw [cycleMap_proc hb] at pb
-    by_cases sa : a ∈ s.select <;> by_cases sb : b ∈ s.select
+    rw [markSel_user, markSel_user]
+    rw [markSel_held] at pa pb
+    have ia := noInflight_spec hn ha
+    have ib := noInflight_spec hn hb
+    by_cases sa : a ∈ taskSel s.select <;> by_cases sb : b ∈ taskSel s.select
     · intro e
-      have := inj_of_nodup_map (·.user) (select_nodup_users s) sa sb e
+      have := inj_of_nodup_map (·.user) (select_nodup_users s) (mem_taskSel.mp sa).1 (mem_taskSel.mp sb).1 e
       rw [this] at hab
       exact Nat.lt_irrefl _ hab.1
-    · have pb' : b.procUpload = true := by simpa [sb] using pb
-      exact fun e => (select_spec sa).2.2.2.2 b hb pb' e.symm
-    · have pa' : a.procUpload = true := by simpa [sa] using pa
-      exact fun e => (select_spec sb).2.2.2.2 a ha pa' e
-    · have pa' : a.procUpload = true := by simpa [sa] using pa
-      have pb' : b.procUpload = true := by simpa [sb] using pb
+    · have pb' : b.procUpload = true := by simpa [sb, Xfer.held, ib] using pb
+      exact fun e => (select_spec (mem_taskSel.mp sa).1).2.2.2.2 b hb pb' e.symm
+    · have pa' : a.procUpload = true := by simpa [sa, Xfer.held, ia] using pa
+      exact fun e => (select_spec (mem_taskSel.mp sb).1).2.2.2.2 a ha pa' e
+    · have pa' : a.held = true := by simpa [sa] using pa
+      have pb' : b.held = true := by simpa [sb] using pb
       exact hab.2 pa' pb'
+  · intro y hy hi
+    obtain ⟨x, hx, rfl⟩ := mem_map.mp hy
+    rw [markSel_dir, markSel_st]
+    rw [markSel_inflight, noInflight_spec hn hx] at hi
+    have hs : x ∈ taskSel s.select := by simpa using hi
+    have hs' := (mem_taskSel.mp hs).1
+    exact ⟨(select_spec hs').2.1, (select_spec hs').2.2.1⟩
 
 theorem setSt_xs (s : Sched) (k : Nat) (st : St) :
-    (s.setSt k st).xs = s.xs.map (fun x => if x.id = k then { x with st := st } else x) := rfl
+    (s.setSt k st).xs = s.xs.map (fun x => if x.id = k then x.withSt st else x) := rfl
+
+theorem withSt_held (x : Xfer) (st : St) : (x.withSt st).held = ({ x with st := st, inflight := false } : Xfer).held := rfl
+
+theorem withSt_st (x : Xfer) (st : St) : (x.withSt st).st = st := rfl
+theorem withSt_inflight (x : Xfer) (st : St) : (x.withSt st).inflight = false := rfl
+theorem withSt_id (x : Xfer) (st : St) : (x.withSt st).id = x.id := rfl
+theorem withSt_user (x : Xfer) (st : St) : (x.withSt st).user = x.user := rfl
+theorem withSt_dir (x : Xfer) (st : St) : (x.withSt st).dir = x.dir := rfl
 
 theorem get?_spec {s : Sched} {k : Nat} {x : Xfer} (h : s.get? k = some x) : x ∈ s.xs ∧ x.id = k := by
   unfold Sched.get? at h
@@ -319,54 +389,141 @@ theorem unique_id {xs : List Xfer} (h : InvL xs) {x y : Xfer} (hx : x ∈ xs) (h
     exact h.ids.imp (fun hab e => by rw [e] at hab; exact Nat.lt_irrefl _ hab)
   exact inj_of_nodup_map (·.id) hn hx hy e
 
-/-- a per-transfer op makes an upload active only from an active state (`started`) -/
-theorem target_proc {x : Xfer} {op : Op} {st : St} (h : target x op = some st) :
-    ({ x with st := st } : Xfer).procUpload = true → x.procUpload = true := by
+/-- a per-transfer op makes an upload active only from an active state (`started`) or from the decision of a
+cycle (`record`): no per-transfer op takes a slot -/
+theorem target_held {x : Xfer} {op : Op} {st : St} (h : target x op = some st) :
+    (x.withSt st).held = true → x.held = true := by
+  rw [withSt_held]
   cases op <;> simp only [target] at h <;> try cases h
   all_goals
     split at h <;> try cases h
     rename_i hc
-    simp_all [Xfer.procUpload, Xfer.processing]
+    simp_all [Xfer.held, Xfer.procUpload, Xfer.processing]
+
+/-- ... and only `record` and `started` make an upload initialising / uploading -/
+theorem target_proc {x : Xfer} {op : Op} {st : St} (h : target x op = some st) :
+    (x.withSt st).procUpload = true → x.held = true :=
+  fun hp => target_held h (held_of_proc hp)
+
+/-- on the elements of `xs` an update by id is "only `x` changes" -/
+theorem map_id_eq {s : Sched} (h : Inv s) {k : Nat} {x : Xfer} (hg : s.get? k = some x) (f : Xfer → Xfer) :
+    s.xs.map (fun y => if y.id = k then f y else y) = s.xs.map (fun y => if y = x then f x else y) := by
+  have ⟨hx, hk⟩ := get?_spec hg
+  apply map_congr_left
+  intro y hy
+  by_cases e : y.id = k
+  · have : y = x := unique_id h hy hx (e.trans hk.symm)
+    simp [this, hk]
+  · have : y ≠ x := fun e' => e (e' ▸ hk)
+    simp [e, this]
+
+theorem setSt_map_eq {s : Sched} (h : Inv s) {k : Nat} {x : Xfer} (hg : s.get? k = some x) (st : St) :
+    s.xs.map (fun y => if y.id = k then y.withSt st else y)
+      = s.xs.map (fun y => if y = x then x.withSt st else y) := map_id_eq h hg (fun y => y.withSt st)
 
 theorem inv_setSt {s : Sched} (h : Inv s) {k : Nat} {x : Xfer} {op : Op} {st : St}
     (hg : s.get? k = some x) (ht : target x op = some st) : Inv (s.setSt k st) := by
+  have hmap := setSt_map_eq h hg st
   unfold Inv at h ⊢
-  rw [setSt_xs]
-  have ⟨hx, hk⟩ := get?_spec hg
-  -- on the elements of xs the update is "only x changes"
-  have hmap : s.xs.map (fun y => if y.id = k then { y with st := st } else y)
-      = s.xs.map (fun y => if y = x then ({ x with st := st } : Xfer) else y) := by
-    apply map_congr_left
-    intro y hy
-    by_cases e : y.id = k
-    · have : y = x := unique_id h hy hx (e.trans hk.symm)
-      simp [this, hk]
-    · have : y ≠ x := fun e' => e (e' ▸ hk)
-      simp [e, this]
-  rw [hmap]
+  rw [setSt_xs, hmap]
+  apply h.map
+  · intro y; split <;> simp_all [withSt_id]
+  · intro y; split <;> simp_all [withSt_user]
+  · intro y hy
+    split at hy
+    · rename_i e; subst e; exact target_held ht hy
+    · exact hy
+  · intro y hy hi
+    split at hi
+    · cases hi
+    · rename_i e
+      simp only [e, if_false]
+      exact h.infl y hy hi
+
+/-- an update of one transfer (found by id) that keeps id and user, does not make it hold a slot and leaves it
+not inflight preserves the invariant -/
+theorem inv_update {s : Sched} (h : Inv s) {k : Nat} {x : Xfer} (hg : s.get? k = some x) (f : Xfer → Xfer)
+    (hid : (f x).id = x.id) (hu : (f x).user = x.user) (hh : (f x).held = true → x.held = true)
+    (hi : (f x).inflight = true → (f x).dir = .upload ∧ (f x).st = .queued) :
+    InvL (s.xs.map (fun y => if y.id = k then f y else y)) := by
+  rw [map_id_eq h hg f]
+  unfold Inv at h
   apply h.map
   · intro y; split <;> simp_all
   · intro y; split <;> simp_all
   · intro y hy
     split at hy
-    · rename_i e; subst e; exact target_proc ht hy
+    · rename_i e; subst e; exact hh hy
     · exact hy
+  · intro y hy hi'
+    split at hi'
+    · rename_i e
+      simp only [e, if_true]
+      exact hi hi'
+    · rename_i e
+      simp only [e, if_false]
+      exact h.infl y hy hi'
 
-theorem inv_step {s : Sched} (h : Inv s) (op : Op) : Inv (step s op) := by
+theorem accepts_breakX {s : Sched} {k : Nat} (h : s.accepts (.breakX k) = true) :
+    ∃ x, s.get? k = some x ∧ x.dir = .upload ∧ x.st = .uploading := by
+  simp only [Sched.accepts] at h
+  cases hg : s.get? k with
+  | none => simp [hg] at h
+  | some x => simp [hg] at h; exact ⟨x, rfl, h.1, h.2⟩
+
+theorem accepts_noticeEnd {s : Sched} {k : Nat} {d : Bool} (h : s.accepts (.noticeEnd k d) = true) :
+    ∃ x, s.get? k = some x ∧ x.lingering = true := by
+  simp only [Sched.accepts] at h
+  cases hg : s.get? k with
+  | none => simp [hg] at h
+  | some x => simp [hg] at h; exact ⟨x, rfl, h⟩
+
+theorem afterNotice_held (x : Xfer) (d : Bool) : (x.afterNotice d).held = true → x.held = true := by
+  unfold Xfer.afterNotice Xfer.held Xfer.procUpload Xfer.processing
+  cases d <;> cases hs : x.st <;> simp_all
+
+theorem inv_breakSt {s : Sched} (h : Inv s) {k : Nat} (ha : s.accepts (.breakX k) = true) : Inv (s.breakSt k) := by
+  obtain ⟨x, hg, _, _⟩ := accepts_breakX ha
+  exact inv_update h hg (fun y => { y with st := .failed, inflight := false, lingering := true }) rfl rfl
+    (by simp [Xfer.held, Xfer.procUpload, Xfer.processing]) (by simp)
+
+theorem inv_endNotice {s : Sched} (h : Inv s) {k : Nat} {d : Bool} (ha : s.accepts (.noticeEnd k d) = true) :
+    Inv (s.endNotice k d) := by
+  obtain ⟨x, hg, hl⟩ := accepts_noticeEnd ha
+  have hx := (get?_spec hg).1
+  refine inv_update h hg (fun y => y.afterNotice d) rfl rfl (afterNotice_held x d) ?_
+  intro hi
+  have hq := h.infl x hx hi
+  refine ⟨hq.1, ?_⟩
+  simp [Xfer.afterNotice, hq.2]
+
+theorem inv_step {s : Sched} (h : Inv s) (op : Op) (ht : timelyOp s op = true) : Inv (step s op) := by
   cases op with
-  | addUpload u => exact InvL.append_idle h _ rfl (by simp [Xfer.procUpload, Xfer.processing])
-  | addDownload u => exact InvL.append_idle h _ rfl (by simp [Xfer.procUpload, Xfer.processing])
+  | addUpload u => exact InvL.append_idle h _ rfl (by simp [Xfer.held, Xfer.procUpload, Xfer.processing])
+  | addDownload u => exact InvL.append_idle h _ rfl (by simp [Xfer.held, Xfer.procUpload, Xfer.processing])
   | cycle =>
     simp only [step]
     split
-    · exact inv_start (s := s.track) h
+    · rename_i hp
+      have hn : s.noInflight = true := by simpa [timelyOp, hp] using ht
+      exact inv_start (s := s.track) h hn
     · exact h
   | setSlots n => exact h
   | friend u b => exact h
   | report u st p => exact h
   | reply u st => cases st <;> exact h
   | privList l => exact h
-  | started k | finish k | failX k | backToQueue k | requeue k | apiQueue k | abort k =>
+  | breakX k =>
+    simp only [step]
+    split
+    · rename_i ha; exact inv_breakSt h ha
+    · exact h
+  | noticeEnd k d =>
+    simp only [step]
+    split
+    · rename_i ha; exact inv_endNotice h ha
+    · exact h
+  | record k | started k | finish k | failX k | backToQueue k | requeue k | apiQueue k | abort k =>
     simp only [step, Op.xfer?]
     split
     · rename_i x hg
@@ -376,14 +533,23 @@ theorem inv_step {s : Sched} (h : Inv s) (op : Op) : Inv (step s op) := by
       · exact h
     · exact h
 
-theorem inv_init : Inv {} := ⟨by simp, by simp, by simp⟩
+theorem inv_init : Inv {} := ⟨by simp, by simp, by simp, by simp⟩
 
-theorem inv_runFrom {s : Sched} (h : Inv s) (ops : List Op) : Inv (runFrom s ops) := by
+theorem inv_slots (n : Nat) : Inv { slots := n } := ⟨by simp, by simp, by simp, by simp⟩
+
+theorem timely_cons {s : Sched} {op : Op} {ops : List Op} :
+    Timely s (op :: ops) ↔ timelyOp s op = true ∧ Timely (step s op) ops := by
+  unfold Timely
+  simp [timelyB]
+
+theorem inv_runFrom {s : Sched} (h : Inv s) (ops : List Op) (ht : Timely s ops) : Inv (runFrom s ops) := by
   induction ops generalizing s with
   | nil => exact h
-  | cons op ops ih => exact ih (inv_step h op)
+  | cons op ops ih =>
+    have ht' := timely_cons.mp ht
+    exact ih (inv_step h op ht'.1) ht'.2
 
-theorem inv_run (ops : List Op) : Inv (run ops) := inv_runFrom inv_init ops
+theorem inv_run (ops : List Op) (ht : Timely {} ops) : Inv (run ops) := inv_runFrom inv_init ops ht
 
 
 /-! ### tracking bookkeeping: the weak dictionary against its specification -/
@@ -447,7 +613,7 @@ theorem trackInv_start {s : Sched} (h : TrackInv s) : TrackInv s.start := by
   apply trackInv_of_xs (s' := s.start) h rfl rfl
   intro u hu
   unfold Sched.hasXfer at hu ⊢
-  rw [start_xs, any_user_map _ (fun x => by unfold cycleMap; split <;> rfl)] at hu
+  rw [start_xs, any_user_map _ (markSel_user _)] at hu
   exact hu
 
 theorem trackInv_setSt {s : Sched} (h : TrackInv s) (k : Nat) (st : St) : TrackInv (s.setSt k st) := by
@@ -456,6 +622,14 @@ theorem trackInv_setSt {s : Sched} (h : TrackInv s) (k : Nat) (st : St) : TrackI
   unfold Sched.hasXfer at hu ⊢
   rw [setSt_xs, any_user_map _ (fun x => by split <;> rfl)] at hu
   exact hu
+
+theorem trackInv_mapId {s : Sched} (h : TrackInv s) (k : Nat) (f : Xfer → Xfer) (hu : ∀ x, (f x).user = x.user) (p : Bool) :
+    TrackInv { s with xs := s.xs.map (fun x => if x.id = k then f x else x), cyclePending := p } := by
+  apply trackInv_of_xs (s' := { s with xs := s.xs.map (fun x => if x.id = k then f x else x), cyclePending := p }) h rfl rfl
+  intro u hx
+  unfold Sched.hasXfer at hx ⊢
+  rw [any_user_map _ (fun x => by split <;> simp [hu])] at hx
+  exact hx
 
 theorem trackInv_append {s : Sched} (h : TrackInv s) (x : Xfer) (p : Bool) :
     TrackInv { s with xs := s.xs ++ [x], cyclePending := p } := by
@@ -504,7 +678,17 @@ theorem trackInv_step {s : Sched} (h : TrackInv s) (op : Op) : TrackInv (step s 
     · show (s.store v).map _ = none
       rw [h.idle v hv]
       rfl
-  | started k | finish k | failX k | backToQueue k | requeue k | apiQueue k | abort k =>
+  | breakX k =>
+    simp only [step]
+    split
+    · exact trackInv_mapId h k (fun y => { y with st := .failed, inflight := false, lingering := true }) (fun _ => rfl) _
+    · exact h
+  | noticeEnd k d =>
+    simp only [step]
+    split
+    · exact trackInv_mapId h k (fun y => y.afterNotice d) (fun _ => rfl) _
+    · exact h
+  | record k | started k | finish k | failX k | backToQueue k | requeue k | apiQueue k | abort k =>
     simp only [step, Op.xfer?]
     split
     · split
@@ -549,30 +733,76 @@ theorem countP_mem_eq_length {xs sel : List Xfer} (hx : xs.Nodup) (hs : sel.Nodu
   simp only [mem_filter, decide_eq_true_eq]
   exact ⟨fun h => h.2, fun h => ⟨hsub a h, h⟩⟩
 
-theorem procUploads_start {s : Sched} (h : Inv s) : s.start.procUploads = s.procUploads + s.select.length := by
-  unfold Sched.procUploads
+theorem taskSel_nodup (s : Sched) : (taskSel s.select).Nodup :=
+  (nodup_of_nodup_map _ (select_nodup_users s)).filter _
+
+theorem heldCount_start {s : Sched} (h : Inv s) (hn : s.noInflight = true) :
+    s.start.heldCount = s.heldCount + (taskSel s.select).length := by
+  unfold Sched.heldCount
   rw [start_xs, countP_map]
-  have : countP (Xfer.procUpload ∘ cycleMap s.select) s.xs
-      = countP (fun x => x.procUpload || decide (x ∈ s.select)) s.xs := by
+  have : countP (Xfer.held ∘ markSel s.select) s.xs
+      = countP (fun x => x.held || decide (x ∈ taskSel s.select)) s.xs := by
     apply countP_congr
-    intro x hx
+    intro x _
     simp only [Function.comp]
-    rw [cycleMap_proc hx]
+    rw [markSel_held]
   rw [this, countP_or_disjoint]
-  · rw [countP_mem_eq_length (InvL.nodup h) (nodup_of_nodup_map _ (select_nodup_users s))
-      (fun x hx => (select_spec hx).1)]
-  · intro x _ hq
-    exact not_proc_of_queued (select_spec (of_decide_eq_true hq)).2.2.1
+  · rw [countP_mem_eq_length (InvL.nodup h) (taskSel_nodup s)
+      (fun x hx => (select_spec (mem_taskSel.mp hx).1).1)]
+  · intro x hx hq
+    exact not_held_of_queued (select_spec (mem_taskSel.mp (of_decide_eq_true hq)).1).2.2.1 (noInflight_spec hn hx)
+
+/-- the selected uploads with a lingering task -/
+def lingerSel (sel : List Xfer) : List Xfer := sel.filter (fun x => x.lingering)
+
+theorem mem_lingerSel {sel : List Xfer} {x : Xfer} : x ∈ lingerSel sel ↔ x ∈ sel ∧ x.lingering = true := by
+  unfold lingerSel
+  simp [mem_filter]
+
+theorem taskSel_add_lingerSel (sel : List Xfer) : (taskSel sel).length + (lingerSel sel).length = sel.length := by
+  unfold taskSel lingerSel
+  induction sel with
+  | nil => rfl
+  | cons a l ih =>
+    simp only [filter_cons]
+    cases a.lingering <;> simp <;> omega
+
+/-- every selected upload that was passed over is watched afterwards -/
+theorem watchedCount_start_ge {s : Sched} (h : Inv s) : (lingerSel s.select).length ≤ s.start.watchedCount := by
+  unfold Sched.watchedCount
+  rw [start_xs, countP_map]
+  have hsub : ∀ x ∈ lingerSel s.select, x ∈ s.xs := fun x hx => (select_spec (mem_lingerSel.mp hx).1).1
+  have hnd : (lingerSel s.select).Nodup := (nodup_of_nodup_map _ (select_nodup_users s)).filter _
+  rw [← countP_mem_eq_length (InvL.nodup h) hnd hsub]
+  apply countP_mono_left
+  intro x _ hx
+  simp only [Function.comp]
+  rw [markSel_watched]
+  have := mem_lingerSel.mp (of_decide_eq_true hx)
+  simp [this.1, this.2]
+
+/-- the scheduler's own count is at most the number of held slots -/
+theorem procUploads_le_heldCount (s : Sched) : s.procUploads ≤ s.heldCount := by
+  unfold Sched.procUploads Sched.heldCount
+  exact countP_mono_left (fun x _ hp => held_of_proc hp) 
+
+/-- ... and equals it when nothing is between decision and record -/
+theorem heldCount_of_noInflight {s : Sched} (hn : s.noInflight = true) : s.heldCount = s.procUploads := by
+  unfold Sched.procUploads Sched.heldCount
+  apply countP_congr
+  intro x hx
+  simp [Xfer.held, noInflight_spec hn hx]
 
 theorem select_length_le (s : Sched) : s.select.length ≤ s.freeSlots := by
   unfold Sched.select
   rw [length_take]
   exact Nat.min_le_left _ _
 
-theorem procUploads_setSt_le {s : Sched} (h : Inv s) {k : Nat} {x : Xfer} {op : Op} {st : St}
-    (hg : s.get? k = some x) (ht : target x op = some st) : (s.setSt k st).procUploads ≤ s.procUploads := by
-  unfold Sched.procUploads
-  rw [setSt_xs, countP_map]
+/-- an update of one transfer that does not make it hold a slot does not increase the number of held slots -/
+theorem heldCount_update_le {s : Sched} (h : Inv s) {k : Nat} {x : Xfer} (hg : s.get? k = some x) (f : Xfer → Xfer)
+    (hh : (f x).held = true → x.held = true) :
+    countP Xfer.held (s.xs.map (fun y => if y.id = k then f y else y)) ≤ countP Xfer.held s.xs := by
+  rw [countP_map]
   apply countP_mono_left
   intro y hy hp
   simp only [Function.comp] at hp
@@ -581,12 +811,99 @@ theorem procUploads_setSt_le {s : Sched} (h : Inv s) {k : Nat} {x : Xfer} {op : 
     have ⟨hx, hk⟩ := get?_spec hg
     have : y = x := unique_id h hy hx (e.trans hk.symm)
     subst this
-    exact target_proc ht hp
+    exact hh hp
   · exact hp
 
-theorem procUploads_append_idle (xs : List Xfer) (x : Xfer) (hp : x.procUpload = false) :
-    countP Xfer.procUpload (xs ++ [x]) = countP Xfer.procUpload xs := by
+theorem heldCount_setSt_le {s : Sched} (h : Inv s) {k : Nat} {x : Xfer} {op : Op} {st : St}
+    (hg : s.get? k = some x) (ht : target x op = some st) : (s.setSt k st).heldCount ≤ s.heldCount :=
+  heldCount_update_le h hg (fun y => y.withSt st) (target_held ht)
+
+theorem heldCount_breakSt_le {s : Sched} (h : Inv s) {k : Nat} (ha : s.accepts (.breakX k) = true) :
+    (s.breakSt k).heldCount ≤ s.heldCount := by
+  obtain ⟨x, hg, _, _⟩ := accepts_breakX ha
+  exact heldCount_update_le h hg (fun y => { y with st := .failed, inflight := false, lingering := true })
+    (by simp [Xfer.held, Xfer.procUpload, Xfer.processing])
+
+theorem heldCount_endNotice_le {s : Sched} (h : Inv s) {k : Nat} {d : Bool} (ha : s.accepts (.noticeEnd k d) = true) :
+    (s.endNotice k d).heldCount ≤ s.heldCount := by
+  obtain ⟨x, hg, _⟩ := accepts_noticeEnd ha
+  exact heldCount_update_le h hg (fun y => y.afterNotice d) (afterNotice_held x d)
+
+theorem heldCount_append_idle (xs : List Xfer) (x : Xfer) (hp : x.held = false) :
+    countP Xfer.held (xs ++ [x]) = countP Xfer.held xs := by
   simp [countP_append, hp]
+
+/-! ### the decision commutes with marking (what the scheduler reads does not change when tasks are created) -/
+
+theorem eligLoop_map {users : Nat → UserInfo} {busy : List Nat} (g : Xfer → Xfer) (hu : ∀ x, (g x).user = x.user)
+    (hd : ∀ x, (g x).dir = x.dir) (hs : ∀ x, (g x).st = x.st) :
+    ∀ (xs : List Xfer) (seen : List Nat), eligLoop users busy seen (xs.map g) = (eligLoop users busy seen xs).map g := by
+  intro xs
+  induction xs with
+  | nil => intro seen; rfl
+  | cons x r ih =>
+    intro seen
+    simp only [map_cons]
+    unfold eligLoop
+    simp only [hu, hd, hs]
+    split
+    · exact ih seen
+    · split
+      · split
+        · exact ih seen
+        · split
+          · exact ih seen
+          · split
+            · rw [map_cons, ih]
+            · exact ih seen
+      · exact ih seen
+
+theorem insAsc_map (key : Xfer → Nat) (g : Xfer → Xfer) (hk : ∀ x, key (g x) = key x) (a : Xfer) :
+    ∀ l, insAsc key (g a) (l.map g) = (insAsc key a l).map g
+  | [] => rfl
+  | b :: l => by
+    simp only [map_cons]
+    unfold insAsc
+    simp only [hk]
+    split
+    · rfl
+    · rw [map_cons, insAsc_map key g hk a l]
+
+theorem sortAsc_map (key : Xfer → Nat) (g : Xfer → Xfer) (hk : ∀ x, key (g x) = key x) :
+    ∀ l, sortAsc key (l.map g) = (sortAsc key l).map g
+  | [] => rfl
+  | a :: l => by
+    simp only [map_cons]
+    unfold sortAsc
+    rw [sortAsc_map key g hk l, insAsc_map key g hk]
+
+theorem busyUsers_start (s : Sched) : s.start.busyUsers = s.busyUsers := by
+  unfold Sched.busyUsers
+  rw [start_xs, filter_map, map_map]
+  have : (Xfer.procUpload ∘ markSel s.select) = Xfer.procUpload := by
+    funext x; simp only [Function.comp]; exact markSel_proc _ _
+  rw [this]
+  apply map_congr_left
+  intro x _
+  simp only [Function.comp]
+  exact markSel_user _ _
+
+theorem users_start (s : Sched) : s.start.users = s.users := rfl
+
+theorem candidates_start (s : Sched) : s.start.candidates = s.candidates.map (markSel s.select) := by
+  unfold Sched.candidates
+  rw [busyUsers_start, users_start, start_xs]
+  exact eligLoop_map _ (markSel_user _) (markSel_dir _) (markSel_st _) _ _
+
+theorem eligible_start (s : Sched) : s.start.eligible = s.eligible.map (markSel s.select) := by
+  unfold Sched.eligible Sched.prioritize
+  rw [candidates_start]
+  have hk : ∀ x, s.start.rankOf (markSel s.select x) = s.rankOf x := by
+    intro x
+    unfold Sched.rankOf
+    rw [users_start, markSel_user]
+  rw [sortAsc_map s.start.rankOf (markSel s.select) hk, ← map_reverse]
+  rfl
 
 /-- symmetric reading of a `Pairwise` fact -/
 theorem forall_of_pairwise {α} {R : α → α → Prop} (hsymm : ∀ a b, R a b → R b a) :
